@@ -10,7 +10,7 @@ from typing import Dict, List, Optional, Tuple
 from ..affine import Aff, Facts, NonAffine, aff_of, find_counterexample, prove_ge0
 from ..boolean import Kind, ObjectModel
 from ..core import AnalysisError, src
-from ..guards import walk_function
+from ..guards import dims_of, walk_function
 from ..index import Cls, Func, RepoIndex
 
 EXPLANATION = (
@@ -337,18 +337,34 @@ def type_sets(index: RepoIndex, rep, rule: str) -> None:
 
 
 def shapes_dtypes(index: RepoIndex, rep, rule_shape: str, rule_dtype: str) -> None:
+    # trusted by the shape canonicalisation (guards.dims_of): Shape.as_tuple is (height, width)
+    at = index.func('gym_gridverse/geometry.py', 'Shape.as_tuple')
+    b = at.body()
+    rep.check(len(b) == 1 and isinstance(b[0], ast.Return) and
+              src(b[0].value) in ('(self.height, self.width)',), rule_shape,
+              'gym_gridverse/geometry.py', 'Shape.as_tuple', at.node.lineno, src(b[-1]),
+              'Shape.as_tuple is not (height, width): every array shaped by it would be '
+              'transposed', 'Shape.as_tuple = (height, width)')
     for rel, kind, var in ((STATE, 'State', 'state'), (OBSR, 'Observation', 'observation')):
         sp_attr = f'self.{var}_space'
         c = index.cls(rel, f'Grid{kind}Representation')
         sp = c.methods['space']
         w = walk_function(sp.node)
-        rets = [src(w.expand(e.value)) for e in w.events if e.kind == 'return' and e.value is not None]
+        retx = [w.expand(e.value) for e in w.events if e.kind == 'return' and e.value is not None]
+        rets = [src(x) for x in retx]
         gor = 'self.grid_object_representation.space'
-        hw = f'({sp_attr}.grid_shape.height, {sp_attr}.grid_shape.width, 1)'
+        hw = [f'{sp_attr}.grid_shape.height', f'{sp_attr}.grid_shape.width', '1']
         # Func.node is in single-assignment form for straight-line re-assignments, so the
         # expanded return is the whole expression
-        ok = rets == [f'Space({gor}.space_type, np.tile({gor}.lower_bound, {hw}), '
-                      f'np.tile({gor}.upper_bound, {hw}))']
+
+        def tiled(x: ast.AST, bound: str) -> bool:
+            return isinstance(x, ast.Call) and src(x.func) in ('np.tile', 'numpy.tile') and \
+                len(x.args) == 2 and not x.keywords and src(x.args[0]) == f'{gor}.{bound}' and \
+                dims_of(x.args[1]) == hw
+        r0 = retx[0] if len(retx) == 1 else None
+        ok = isinstance(r0, ast.Call) and src(r0.func) == 'Space' and len(r0.args) == 3 and \
+            not r0.keywords and src(r0.args[0]) == f'{gor}.space_type' and \
+            tiled(r0.args[1], 'lower_bound') and tiled(r0.args[2], 'upper_bound')
         rep.check(ok, rule_shape, rel, f'{c.name}.space', sp.node.lineno, '; '.join(rets)[:160],
                   f'{c.name}.space does not tile the per-object bounds by (height, width, 1) of '
                   f'the space\'s grid shape', f'{c.name}.space tiled (h, w, 1)')
@@ -381,10 +397,22 @@ def shapes_dtypes(index: RepoIndex, rep, rule_shape: str, rule_dtype: str) -> No
         c = index.cls(rel, f'AgentIDGrid{kind}Representation')
         sp = c.methods['space']
         w = walk_function(sp.node)
-        rets = [src(w.expand(e.value)) for e in w.events if e.kind == 'return' and e.value is not None]
-        hw = f'({sp_attr}.grid_shape.height, {sp_attr}.grid_shape.width)'
-        want = f'Space.make_discrete_space(np.zeros({hw}, dtype=int), np.ones({hw}, dtype=int))'
-        rep.check(rets == [want], rule_shape, rel, f'{c.name}.space', sp.node.lineno,
+        retx = [w.expand(e.value) for e in w.events if e.kind == 'return' and e.value is not None]
+        rets = [src(x) for x in retx]
+        hw = [f'{sp_attr}.grid_shape.height', f'{sp_attr}.grid_shape.width']
+
+        def filled(x: ast.AST, fn: str) -> bool:
+            if not (isinstance(x, ast.Call) and src(x.func) in (f'np.{fn}', f'numpy.{fn}')
+                    and x.args and dims_of(x.args[0]) == hw):
+                return False
+            dt = [src(a) for a in x.args[1:]] + [src(k.value) for k in x.keywords
+                                                 if k.arg == 'dtype']
+            return dt == ['int'] and all(k.arg == 'dtype' for k in x.keywords)
+        r0 = retx[0] if len(retx) == 1 else None
+        okb = isinstance(r0, ast.Call) and src(r0.func) == 'Space.make_discrete_space' and \
+            len(r0.args) == 2 and not r0.keywords and filled(r0.args[0], 'zeros') and \
+            filled(r0.args[1], 'ones')
+        rep.check(okb, rule_shape, rel, f'{c.name}.space', sp.node.lineno,
                   '; '.join(rets), f'{c.name}.space is not the integer box [0, 1]^(height, width)',
                   f'{c.name}.space')
         cv = c.methods['convert']
@@ -394,10 +422,20 @@ def shapes_dtypes(index: RepoIndex, rep, rule_shape: str, rule_dtype: str) -> No
         arr = src(rets[0].value) if len(rets) == 1 else ''
         d = w.sole_binding(arr) if arr.isidentifier() else None
         stores = [e for e in w.events if e.kind == 'store' and src(e.target.value) == arr]
-        ok = d is not None and src(d[1]) in (f'np.zeros({p}.grid.shape.as_tuple, int)',
-                                             f'np.zeros({p}.grid.shape.as_tuple, dtype=int)') \
-            and len(stores) == 1 and src(stores[0].target.slice) == f'{p}.agent.position.yx' \
-            and src(stores[0].value) == '1' and stores[0].guard == ('true',)
+        ok = False
+        if d is not None and d[0] == 'value' and len(stores) == 1:
+            z = w.expand(d[1])
+            dt = [src(a) for a in z.args[1:]] + [src(k.value) for k in z.keywords] \
+                if isinstance(z, ast.Call) else []
+            sl = src(w.expand(ast.Subscript(ast.Name('_', ast.Load()), stores[0].target.slice,
+                                            ast.Load())).slice)
+            ok = isinstance(z, ast.Call) and src(z.func) in ('np.zeros', 'numpy.zeros') and \
+                len(z.args) >= 1 and \
+                dims_of(z.args[0]) == [f'{p}.grid.shape.height', f'{p}.grid.shape.width'] and \
+                dt == ['int'] and all(k.arg == 'dtype' for k in z.keywords) and \
+                sl in (f'{p}.agent.position.yx',
+                       f'({p}.agent.position.y, {p}.agent.position.x)') and \
+                src(stores[0].value) == '1' and stores[0].guard == ('true',)
         rep.check(bool(ok), rule_shape, rel, f'{c.name}.convert', cv.node.lineno,
                   '; '.join(src(e.stmt) for e in stores),
                   f'{c.name}.convert is not a zero integer array of the grid shape with exactly '
@@ -440,10 +478,14 @@ def agent_vector(index: RepoIndex, rep, rule: str, rule_dtype: str) -> None:
               'the agent space is not the float box [-1,1]^2 x [0,1]^4', 'agent space floats')
     cv = c.methods['convert']
     p = cv.node.args.args[1].arg
-    w = walk_function(cv.node)
+    from ..view import view
+    _node, w, _inl = view(index, cv)
     rets = [e for e in w.events if e.kind == 'return' and e.value is not None]
     try:
-        cells, is_float = vector_of(w, rets[0].value) if len(rets) == 1 else (None, False)
+        from ..inline import inline_pure_exprs
+        rv = inline_pure_exprs(index, cv.module, cv.cls, rets[0].value) if len(rets) == 1 \
+            else None
+        cells, is_float = vector_of(w, rv) if rv is not None else (None, False)
     except AnalysisError as ex:
         cells, is_float = None, False
         rep.note(f'agent vector: {ex}')
@@ -492,60 +534,108 @@ def agent_vector(index: RepoIndex, rep, rule: str, rule_dtype: str) -> None:
               '0..3 (index at most 5)', 'one-hot heading within the vector')
 
 
+_FLOATS = ('float', 'np.float64', 'np.float32')
+
+
+def _zero_block(w, v: ast.AST):
+    """(length, is_float) of a fresh all-zero vector: np.zeros(n), a display of zeros,
+    `[0.0] * n`; None otherwise"""
+    v = w.expand(v)
+    if isinstance(v, ast.Call) and src(v.func) in ('np.zeros', 'numpy.zeros') and \
+            len(v.args) == 1 and isinstance(v.args[0], ast.Constant) and \
+            isinstance(v.args[0].value, int):
+        isf = not v.keywords or all(k.arg == 'dtype' and src(k.value) in _FLOATS
+                                    for k in v.keywords)
+        return v.args[0].value, isf
+    if isinstance(v, ast.List) and v.elts and \
+            all(isinstance(x, ast.Constant) and x.value == 0 and not isinstance(x.value, bool)
+                for x in v.elts):
+        return len(v.elts), all(isinstance(x.value, float) for x in v.elts)
+    if isinstance(v, ast.BinOp) and isinstance(v.op, ast.Mult):
+        for l, n in ((v.left, v.right), (v.right, v.left)):
+            if isinstance(l, ast.List) and len(l.elts) == 1 and \
+                    isinstance(l.elts[0], ast.Constant) and l.elts[0].value == 0 and \
+                    isinstance(n, ast.Constant) and isinstance(n.value, int) and n.value > 0:
+                return n.value, isinstance(l.elts[0].value, float)
+    return None
+
+
+def _block_of(w, name: str):
+    """cells of a named zero vector after its element stores, or None"""
+    d = w.sole_binding(name)
+    if d is None or d[0] != 'value':
+        return None
+    zb = _zero_block(w, d[1])
+    if zb is None:
+        return None
+    n, isf = zb
+    cells = [('zero',)] * n
+    for ev in w.events:
+        if ev.kind == 'store' and isinstance(ev.target, ast.Subscript) and \
+                src(ev.target.value) == name:
+            idx = w.expand(ev.target.slice)
+            val = w.expand(ev.value)
+            if isinstance(val, ast.Constant) and isinstance(val.value, float):
+                isf = True
+            if isinstance(idx, ast.Constant) and isinstance(idx.value, int) and \
+                    0 <= idx.value < n:
+                cells[idx.value] = ('expr', val)
+                continue
+            base, var = 0, idx
+            if isinstance(idx, ast.BinOp) and isinstance(idx.op, ast.Add):
+                for a, b in ((idx.left, idx.right), (idx.right, idx.left)):
+                    if isinstance(a, ast.Constant) and isinstance(a.value, int):
+                        base, var = a.value, b
+            if not 0 <= base < n:
+                raise AnalysisError(f'store `{src(ev.stmt)}` outside the vector')
+            hv = src(val)
+            if isinstance(val, ast.Constant) and val.value == 1:
+                hv = '1'
+            for k in range(base, n):
+                cells[k] = ('hot', src(var), hv, k - base, n - base)
+        elif ev.kind in ('augstore', 'attrstore') and src(ev.target).startswith(name):
+            raise AnalysisError(f'vector `{name}` is updated by `{src(ev.stmt)}`')
+    return cells, isf
+
+
 def vector_of(w, e: ast.AST, depth: int = 4):
     """cells of a small vector-valued expression: ('expr', node) | ('zero',) |
     ('hot', index text, value text, position in the block, block width), and whether the
-    array is float-typed.  Understood: np.zeros(n) filled by element stores (constant index,
-    or constant + index expression: a one-hot block reaching the end of the array), list /
-    tuple / np.array displays, np.concatenate / np.hstack of such parts"""
+    array is float-typed.  Understood: a zero vector (np.zeros(n), a display of zeros,
+    `[0.0] * n`) filled by element stores (constant index, or constant + index expression: a
+    one-hot block reaching the end of the vector), list / tuple / np.array displays with
+    starred parts, np.concatenate / np.hstack of such parts"""
     if depth <= 0:
         raise AnalysisError('vector expression too deep')
     if isinstance(e, ast.Name):
+        blk = _block_of(w, e.id)
+        if blk is not None:
+            return blk
         d = w.sole_binding(e.id)
         if d is None or d[0] != 'value':
             raise AnalysisError(f'vector `{e.id}` has no single definition')
-        v = d[1]
-        if isinstance(v, ast.Call) and src(v.func) in ('np.zeros', 'numpy.zeros') and \
-                len(v.args) == 1 and isinstance(v.args[0], ast.Constant) and \
-                isinstance(v.args[0].value, int):
-            n = v.args[0].value
-            isf = not v.keywords or all(
-                k.arg == 'dtype' and src(k.value) in ('float', 'np.float64', 'np.float32')
-                for k in v.keywords)
-            cells = [('zero',)] * n
-            for ev in w.events:
-                if ev.kind == 'store' and isinstance(ev.target, ast.Subscript) and \
-                        src(ev.target.value) == e.id:
-                    idx = w.expand(ev.target.slice)
-                    if isinstance(idx, ast.Constant) and isinstance(idx.value, int) and \
-                            0 <= idx.value < n:
-                        cells[idx.value] = ('expr', w.expand(ev.value))
-                        continue
-                    base, var = 0, idx
-                    if isinstance(idx, ast.BinOp) and isinstance(idx.op, ast.Add):
-                        for a, b in ((idx.left, idx.right), (idx.right, idx.left)):
-                            if isinstance(a, ast.Constant) and isinstance(a.value, int):
-                                base, var = a.value, b
-                    if not 0 <= base < n:
-                        raise AnalysisError(f'store `{src(ev.stmt)}` outside the vector')
-                    for k in range(base, n):
-                        cells[k] = ('hot', src(var), src(w.expand(ev.value)), k - base, n - base)
-                elif ev.kind in ('augstore', 'attrstore') and src(ev.target).startswith(e.id):
-                    raise AnalysisError(f'vector `{e.id}` is updated by `{src(ev.stmt)}`')
-            return cells, isf
-        return vector_of(w, v, depth - 1)
+        return vector_of(w, d[1], depth - 1)
     if isinstance(e, (ast.List, ast.Tuple)):
-        cells = [('expr', w.expand(x)) for x in e.elts]
-        isf = all(isinstance(c[1], ast.BinOp) and isinstance(c[1].op, ast.Div) or
-                  (isinstance(c[1], ast.Constant) and isinstance(c[1].value, float))
-                  for c in cells)
-        return cells, isf
+        cells = []
+        floats = []
+        for x in e.elts:
+            if isinstance(x, ast.Starred):
+                c, f_ = vector_of(w, x.value, depth - 1)
+                cells += c
+                floats.append(f_)
+            else:
+                v = w.expand(x)
+                cells.append(('expr', v))
+                floats.append(isinstance(v, ast.BinOp) and isinstance(v.op, ast.Div) or
+                              (isinstance(v, ast.Constant) and isinstance(v.value, float)))
+        # numpy promotes a display with any float entry; a display of ints only is integer
+        return cells, bool(floats) and all(floats)
     if isinstance(e, ast.Call) and src(e.func) in ('np.array', 'numpy.array', 'np.asarray') and \
             e.args:
         cells, isf = vector_of(w, e.args[0], depth - 1)
         kw = {k.arg: src(k.value) for k in e.keywords}
         if 'dtype' in kw:
-            isf = kw['dtype'] in ('float', 'np.float64', 'np.float32')
+            isf = kw['dtype'] in _FLOATS
         return cells, isf
     if isinstance(e, ast.Call) and src(e.func) in ('np.concatenate', 'np.hstack',
                                                    'numpy.concatenate') and len(e.args) == 1 \
